@@ -20,17 +20,17 @@ TEXT = {
          'exploration; verdict is ultimately a function of the stored bytes (fit of the technique: weak-moderate, stated in DESIGN.md)', '5 (C03)'),
  'C04': ('seeded deterministic simulation of nesting histories; three comparisons per run (writer vs reference serializer, reader on reference bytes vs model, end to end) against an encoding-scope model',
          'exploration of push/pop histories of the encoding scope up to 12 containers', '5 (C04)'),
- 'C05': ('seeded deterministic simulation: DOM builder actor -> to_bytes -> simulated storage -> from_stream; tree model + spec serializer + documented normalisation as oracle',
+ 'C05': ('seeded deterministic simulation: DOM builder actor -> to_bytes -> simulated storage -> from_stream; tree model + spec serializer + documented normalisation as oracle; lists edited in place, rejected add_* calls and a tree-shape oracle; second parse after editing the first; DiffX subclasses as loaders',
          'exploration over trees built through the public API; conditional on to_bytes() succeeding', '5 (C05)'),
  'C06': ('seeded deterministic simulation: editor actor load -> store -> load -> store over canonical (writer) and foreign-producer files; byte identity / content equality per reference parser / fixed point',
          'exploration', '5 (C06)'),
  'C07': ('deterministic simulation with fault injection: producer crash / torn write / transfer cut at EVERY byte of each generated file, reader overtaking writer, length faults; prefix-of-intact-records oracle',
          'fault_enumeration: the cut sweep is complete per file (every crash point 0..len), files and length faults are sampled', '6 (C07)'),
- 'C08': ('deterministic simulation with fault injection: byte/token/line-level storage corruption, random bytes, DiffX-shaped soup, injected read errors; three consumers (stepped reader, from_bytes, from_stream with close tracking); error-contract oracle',
+ 'C08': ('deterministic simulation with fault injection: byte/token/line-level storage corruption, random bytes, DiffX-shaped soup, metadata nested beyond the recursion limit, injected read / seek errors, forward-only streams, a sniffing reader_cls hook; three consumers (stepped reader, from_bytes, from_stream with close tracking); error-contract oracle',
          'exploration of the corruption space; termination enforced by a stream-event cap and a CPU cap', '6 (C08)'),
  'C09': ('deterministic simulation with fault injection on the caller side: arbitrary call sequences with rejected calls (38 bad-argument variants) and injected write errors; hierarchy model, zero-write atomicity on the traced handle, twin run of accepted calls only; exhaustive sweep of short call sequences',
          'exploration + exhaustive sub-space (all call sequences up to a bounded length)', '6 (C09)'),
- 'C10': ('seeded simulation of a byzantine producer emitting section ids in arbitrary order (with header variations, blank lines, very long headers), preceded by noise actors that share the process-global tables (a writer whose calls are partly rejected, a DOM user); successor relation typed in from the spec as oracle; process-global-state guard; exhaustive sweep of every candidate id after every legal prefix up to a bounded length',
+ 'C10': ('seeded simulation of a byzantine producer emitting section ids in arbitrary order (with header variations, blank lines, very long headers), preceded by noise actors that share the process-global tables (a writer whose calls are partly rejected, a DOM user); short reads inside header lines, the same reader iterated twice, legal sequences also through the object-model loader with a reader_cls hook; successor relation typed in from the spec as oracle; process-global-state guard; exhaustive sweep of every candidate id after every legal prefix up to a bounded length',
          'exploration + exhaustive sub-space; verdict is a function of the id sequence (fit: weak-moderate)', '6 (C10)'),
  'C11': ('seeded storage damage confined to the option string of one header; reference header grammar as oracle; exhaustive sweep of all option strings up to a bounded length over a 16-symbol alphabet',
          'exploration + exhaustive sub-space; verdict is a function of one line (fit: weak, stated in DESIGN.md)', '6 (C11)'),
@@ -42,7 +42,7 @@ TEXT = {
          'exploration (configuration swarm)', '5 (C15)'),
  'C17': ('deterministic simulation with re-chunking: (header padding 0..2B) x (read-ahead block size 1..2B, > file) x (stream kind) per generated file; metamorphic oracle + reference parser; full grid in the thorough tier',
          'fault_enumeration: thorough enumerates the complete 193 x 194 grid per file; quick samples it', '6 (C17)'),
- 'C18': ('deterministic simulation: 2-4 DOM actors x 1-2 live trees interleaved step by step by a seeded schedule; deep-snapshot isolation (across trees and within a tree) / observer-purity invariants after EVERY step, class-level defaults, shared tables and a fresh DiffX() included; reused DiffXDOMReader / DiffXDOMWriter objects compared with fresh ones',
+ 'C18': ('deterministic simulation: 2-4 DOM actors x 1-2 live trees interleaved step by step by a seeded schedule; deep-snapshot isolation (across trees and within a tree) / observer-purity invariants after EVERY step, class-level defaults, shared tables and a fresh DiffX() included; reused DiffXDOMReader / DiffXDOMWriter objects (failing parses in between) compared with fresh ones; file sections cloned by deepcopy / pickle between trees; argument modes (subclass instances, one shared object)',
          'exploration of interleavings of API-call-sized steps', '7 (C18)'),
  'C19': ('deterministic simulation with rejected assignments as faults: typed attribute table (from the docs) x right/wrong values, unknown constructor attributes, whole-tree atomicity snapshots; equality probes against snapshot equality with twin trees and single-field perturbations',
          'exploration', '7 (C19)'),
